@@ -343,7 +343,7 @@ def check_wrapper(chk, base):
             defs[st.targets[0].id] = st.value
     a0 = call.args[0] if call.args else None
     a0d = defs.get(a0.id) if isinstance(a0, ast.Name) else a0
-    t0 = A.text(a0d) if a0d is not None else ""
+    t0 = A.text(inl.expand(a0d)) if a0d is not None else ""
     shape_ok = bool(re.search(r"\.reshape\(\(?1, len\(%s\), cls\.NSYM\)?\)" % ch, t0)) and \
         bool(re.search(r"np\.(array|asarray)\(%s\b" % ch, t0))
     chk.verdict("G4", (f, call), a0d if a0d is not None else call, True if shape_ok else False,
@@ -356,7 +356,7 @@ def check_wrapper(chk, base):
         if isinstance(st, ast.If) and A.text(st.test) == "signatures is None":
             for b in st.body:
                 if isinstance(b, ast.Assign) and A.text(b.targets[0]) == "signatures" and \
-                        A.text(b.value) in (f"(1,) * len({ch})", f"len({ch}) * (1,)"):
+                        A.text(inl.expand(b.value)) in (f"(1,) * len({ch})", f"len({ch}) * (1,)"):
                     dflt_ok = True
     chk.verdict("G4", (f, call), "signatures default (1,)*len(charges)", True if (sig_ok and dflt_ok) else False,
                 "default signatures are not all +1 / not forwarded to fuse")
